@@ -114,9 +114,9 @@ Proof. exact failure_no_report. Qed.
 Print Assumptions c20_failure_no_report.
 
 (* any environment: a non-zero status always comes with a diagnostic *)
-Theorem c20_failure_has_diag : forall f e, f_help_md f = false ->
+Theorem c20_failure_has_diag : forall f e,
   snd (run f e) <> 0 -> existsb is_diag (fst (run f e)) = true.
-Proof. exact failure_has_diag. Qed.
+Proof. exact failure_has_diag_all. Qed.
 Print Assumptions c20_failure_has_diag.
 
 (* ... and the diagnostic is visible: "Error: .." on standard error, or a logger message on standard
@@ -138,11 +138,11 @@ Proof. exact silent_failure_witness. Qed.
 Print Assumptions c20_silent_failure_known_witness.
 
 (* a failed write is a broken pipe (status 0, silently) or an io error (status 1, "Error: .." on stderr) *)
-Theorem c20_io_error_status : forall f e w r, f_help_md f = false ->
+Theorem c20_io_error_status : forall f e w r,
   In (WriteFailed w r) (fst (run f e)) ->
   (e_write e w r = IoBrokenPipe /\ snd (run f e) = 0) \/
   (e_write e w r = IoErr /\ snd (run f e) = 1 /\ In (Diag Stderr) (fst (run f e))).
-Proof. exact io_error_status. Qed.
+Proof. exact io_error_status_all. Qed.
 Print Assumptions c20_io_error_status.
 
 (* io faults, sink by sink.  (1) any environment: a failing run in which no printer call failed
